@@ -267,6 +267,32 @@ pub fn matrix() -> Vec<(String, Prog)> {
     out
 }
 
+/// The same name declared twice in ONE scope, in every frame kind and in the shapes that put
+/// two lets into one scope without looking like it (both arms of a conditional without
+/// begin..end, a let in a loop body, a let in an argument list).
+pub fn redeclarations() -> Vec<(String, Prog)> {
+    let twice: Vec<(&str, Vec<E>)> = vec![
+        ("plain", vec![let_("d", E::Int(1)), let_("d", E::Int(2)), var("d")]),
+        ("then-other-lets", vec![let_("d", E::Int(1)), let_("d", E::Int(2)), let_("e", E::Int(3)), bin("+", var("d"), var("e"))]),
+        ("three-times", vec![let_("d", E::Int(1)), let_("d", E::Int(2)), let_("d", E::Int(3)), var("d")]),
+        ("both-arms-of-if", vec![E::If(bx(E::Bool(true)), bx(let_("d", E::Int(1))), Some(bx(let_("d", E::Int(2))))), var("d")]),
+        ("if-arm-then-again", vec![E::If(bx(E::Bool(true)), bx(let_("d", E::Int(1))), None), let_("d", E::Int(2)), var("d")]),
+        ("loop-body-let-then-again", vec![let_("c", E::Bool(true)), E::While(bx(var("c")), bx(E::Block(vec![assign("c", E::Bool(false))]))), let_("c", E::Int(2)), var("c")]),
+        ("in-arguments", vec![print("~ ~\\n", vec![let_("d", E::Int(1)), let_("d", E::Int(2))]), var("d")]),
+    ];
+    let mut out = vec![];
+    for (name, stmts) in twice {
+        out.push((format!("{}-in-function", name), vec![E::Fun("host".into(), vec!["p".into()], bx(E::Block(stmts.clone()))), call("host", vec![E::Int(0)])]));
+        out.push((
+            format!("{}-in-method", name),
+            vec![let_("holder", E::Object(None, vec![Member::Method("host".into(), vec!["p".into()], E::Block(stmts.clone()))])), mcall(var("holder"), "host", vec![E::Int(0)])],
+        ));
+        out.push((format!("{}-in-top-level-block", name), vec![E::Block(stmts.clone())]));
+        out.push((format!("{}-at-top-level", name), stmts.clone()));
+    }
+    out
+}
+
 impl Property for C02 {
     fn id(&self) -> &'static str {
         "C02"
@@ -301,6 +327,18 @@ impl Property for C02 {
             ctx.label("matrix-program");
             if let Err(mut v) = judge_source(&prog, ctx, &name) {
                 v.detail = format!("[matrix {}] {}", name, v.detail);
+                out.push(v);
+            }
+        }
+        // programs the pinned compiler refuses (a name declared twice in one scope): a compiler
+        // that translates them after all must still emit well-formed code (frame sizes!)
+        for (i, (name, prog)) in redeclarations().into_iter().enumerate() {
+            if !ctx.shard_mine(i + 1) {
+                continue;
+            }
+            ctx.label("redeclaration-program");
+            if let Err(mut v) = judge_source(&prog, ctx, &format!("limit:{}", name)) {
+                v.detail = format!("[redeclaration {}] {}", name, v.detail);
                 out.push(v);
             }
         }
